@@ -1,5 +1,5 @@
 """C04 — every frame is the canonical Kafka encoding; decoding inverts it (DESIGN.md section 7, C04)."""
-import json
+import json, re
 import checklib as L
 from checks import schema_common as S
 
@@ -53,8 +53,13 @@ def conn_judge(cases, res, canon):
     failures, cnt = [], {}
     def bump(k):
         cnt[k] = cnt.get(k, 0) + 1
+    seen = {}
     def fail(layer, what, c, **more):
-        if sum(1 for f in failures if f["what"].split(" [")[0] == what.split(" [")[0]) >= 3:
+        # at most two reports per kind of failure (the kind: the text without its numbers and its [api vN] tag)
+        kind = re.sub(r"-?\d+", "#", what.split(" [")[0])
+        seen[kind] = seen.get(kind, 0) + 1
+        bump("FAIL:" + kind)
+        if seen[kind] > 2 or len(failures) >= 10:
             return
         failures.append(dict(layer=layer, what="C04 (Conn): " + what,
                              detail=json.dumps(dict(case=c["line"][:1200], go=c["go"][:600], model=str(res.get(c["id"]))[:600],
